@@ -119,6 +119,11 @@ func newMemUniverse(rng *RNG, large bool) *memUniverse {
 	add("nomediatype-layer", img, ocispec.Manifest{MediaType: img, Config: bd(4), Layers: []ocispec.Descriptor{nomt}})
 	add("m3-layer3", img, ocispec.Manifest{MediaType: img, Config: bd(4), Layers: []ocispec.Descriptor{bd(5)}})
 	add("emptymt", "", []byte("x"))
+	// a valid document followed by something else is not a valid document
+	add("m1-trailing", img, append(append([]byte{}, m1.data...), []byte("}garbage")...))
+	add("m1-twice", img, append(append([]byte{}, m1.data...), m1.data...))
+	add("i1-trailing", idx, append(append([]byte{}, i1.data...), []byte(" {}")...))
+	add("m1-trailing-space", img, append(append([]byte{}, m1.data...), []byte(" \n\t")...)) // this one is valid
 	return u
 }
 
@@ -151,8 +156,8 @@ func (u *memUniverse) genOp(rng *RNG, writers *[]string) string {
 			dig = pick(rng, ds)
 		case 1:
 			size += int64(rng.Intn(3)) - 1
-		case 2:
-			mt = pick(rng, []string{"", "text/plain"})
+		case 2, 3:
+			mt = pick(rng, []string{"", "text/plain", "text/plain", "application/x-other"})
 		}
 		return linePushBlob(repo, mt, dig, size, b)
 	case 14, 15, 16, 17, 18, 19, 20, 21, 22, 23, 24, 25, 26, 27, 28: // push manifest
@@ -226,11 +231,59 @@ func (u *memUniverse) genOp(rng *RNG, writers *[]string) string {
 	}
 }
 
+// memDirected: short histories aimed at state that two repositories could share and at the
+// edges of manifest decoding.
+func memDirected(rng *RNG) []Case {
+	var cases []Case
+	u := newMemUniverse(rng, false)
+	byName := map[string]memManifest{}
+	for _, m := range u.manifests {
+		byName[m.name] = m
+	}
+	b := u.blobs[2]
+	dg := sha256Digest(b)
+	for imm := 0; imm < 2; imm++ {
+		for _, back := range []string{"a", "b/c"} {
+			// a mounted blob is a copy: re-pushing it under another media type in one repository
+			// does not change what the other reports; deleting it in one leaves the other
+			lines := []string{fmt.Sprintf("mem init %d", imm),
+				linePushBlob("a", "application/octet-stream", dg, int64(len(b)), b),
+				fmt.Sprintf("mem mount %s %s %s", tok("a"), tok("b/c"), tok(dg)),
+				linePushBlob(back, "text/plain", dg, int64(len(b)), b),
+			}
+			for _, r := range []string{"a", "b/c"} {
+				lines = append(lines, fmt.Sprintf("mem resolveblob %s %s", tok(r), tok(dg)), fmt.Sprintf("mem getblob %s %s", tok(r), tok(dg)))
+			}
+			lines = append(lines, fmt.Sprintf("mem deleteblob %s %s", tok(back), tok(dg)))
+			for _, r := range []string{"a", "b/c"} {
+				lines = append(lines, fmt.Sprintf("mem resolveblob %s %s", tok(r), tok(dg)))
+			}
+			cases = append(cases, Case{Tag: "directed:mount-copy", Lines: lines})
+		}
+		// manifests whose bytes are a valid document followed by more
+		lines := []string{fmt.Sprintf("mem init %d", imm)}
+		for _, bl := range u.blobs {
+			lines = append(lines, linePushBlob("a", "application/octet-stream", sha256Digest(bl), int64(len(bl)), bl))
+		}
+		lines = append(lines, linePushManifest("a", "", byName["m1"].data, byName["m1"].mt))
+		for _, name := range []string{"m1-trailing", "m1-twice", "i1-trailing", "m1-trailing-space"} {
+			m := byName[name]
+			lines = append(lines, linePushManifest("a", name, m.data, m.mt),
+				fmt.Sprintf("mem gettag %s %s", tok("a"), tok(name)),
+				fmt.Sprintf("mem resolvemanifest %s %s", tok("a"), tok(sha256Digest(m.data))))
+		}
+		lines = append(lines, fmt.Sprintf("mem tags %s %s", tok("a"), tok("")))
+		cases = append(cases, Case{Tag: "directed:trailing-json", Lines: lines})
+	}
+	return cases
+}
+
 func (e *memEngine) Gen(rng *RNG, tier string) []Case {
 	var cases []Case
 	if e.prop == "C14" {
 		cases = append(cases, c14Directed(rng)...)
 	}
+	cases = append(cases, memDirected(rng)...)
 	n, maxLen := 600, 40
 	if tier == "thorough" {
 		n, maxLen = 8000, 200
@@ -524,14 +577,18 @@ func memOracle(c Case, impl []string, wire bool) []Failure {
 			}
 			switch t[1] {
 			case "getblob":
-				ok, _, rdg, rsize, rdata := parseRead(got)
+				ok, rmt, rdg, rsize, rdata := parseRead(got)
 				if !ok || rdata != string(b.data) || rdg != dg || rsize != int64(len(b.data)) || sha256Digest([]byte(rdata)) != dg {
 					fail("mem-read-bytes", "get_exact", "read … the pushed bytes")
+				} else if !wire && rmt != b.mt {
+					fail("mem-blob-mediatype", "blob_descriptor_is_this_repositorys", "media type "+b.mt+" (as last pushed or mounted in this repository)")
 				}
 			case "resolveblob":
-				ok, _, rdg, rsize := parseDescOut(got)
+				ok, rmt, rdg, rsize := parseDescOut(got)
 				if !ok || rdg != dg || rsize != int64(len(b.data)) {
 					fail("mem-resolve-desc", "resolve_exact", "desc of the pushed bytes")
+				} else if !wire && rmt != b.mt {
+					fail("mem-blob-mediatype", "blob_descriptor_is_this_repositorys", "media type "+b.mt+" (as last pushed or mounted in this repository)")
 				}
 			case "getblobrange":
 				o0, _ := strconv.ParseInt(t[4], 10, 64)
